@@ -13,7 +13,7 @@ CfgSim == {[par |-> p, nr |-> r, pto |-> 2, pred |-> b] : p \in 1..3, r \in 1..4
 Match(p) == p % 2 = 1          \* which peers' records satisfy the predicate
 
 InitCands == {<<>>} \cup {<<<<a, Match(a)>>>> : a \in Peers} \cup {<<<<a, Match(a)>>, <<b, Match(b)>>>> : a \in Peers, b \in Peers}
-             \cup {<<<<a, Match(a)>>, <<b, Match(b)>>, <<c, Match(c)>>>> : a \in {2, 4}, b \in {1, 5}, c \in {3, N}}
+             \cup {<<<<a, Match(a)>>, <<b, Match(b)>>, <<c, Match(c)>>>> : a \in {2, 4}, b \in {1}, c \in {3}}
 Init == \E cfg \in CFGS : \E cands \in InitCands :
           /\ q = New(cfg, cands) /\ now = 0 /\ contacted = <<>> /\ everStalled = FALSE
           /\ learned = {cands[i][1] : i \in 1..(IF Len(cands) < cfg.nr THEN Len(cands) ELSE cfg.nr)} /\ succ = {}
